@@ -45,6 +45,7 @@ func (x *Exec) checkAsserts(fr *Frame, b *ssa.BasicBlock, st *State, ins ssa.Ins
 			v.T = x.declareEq("ghost_"+bd.Name, v.T)
 		}
 		x.ghost[bd.Name] = v
+		x.noteReached(bd.Name, st.Guard)
 	}
 	for k, as := range x.contract.Asserts {
 		if !strings.Contains(line, as.At) {
@@ -90,14 +91,21 @@ func (x *Exec) checkBindsAfter(fr *Frame, b *ssa.BasicBlock, st *State, idx int)
 		return
 	}
 	ins := b.Instrs[idx]
-	if !ins.Pos().IsValid() {
+	ipos := ins.Pos()
+	if ex, ok := ins.(*ssa.Extract); ok {
+		// the components of "a, b := f()" belong to the line of the call
+		if ti, ok := ex.Tuple.(ssa.Instruction); ok {
+			ipos = ti.Pos()
+		}
+	}
+	if !ipos.IsValid() {
 		return
 	}
 	if _, isDbg := ins.(*ssa.DebugRef); isDbg {
 		return
 	}
-	line := x.lineText(ins.Pos())
-	pos := x.P.Prog.Fset.Position(ins.Pos())
+	line := x.lineText(ipos)
+	pos := x.P.Prog.Fset.Position(ipos)
 	// is this the last value-producing instruction of the line in this block?
 	for j := idx + 1; j < len(b.Instrs); j++ {
 		nx := b.Instrs[j]
@@ -107,6 +115,8 @@ func (x *Exec) checkBindsAfter(fr *Frame, b *ssa.BasicBlock, st *State, idx int)
 		switch nx.(type) {
 		case *ssa.If, *ssa.Jump, *ssa.Return:
 			continue
+		case *ssa.Extract:
+			return // the call's results are still being taken apart
 		}
 		if nx.Pos().IsValid() && x.P.Prog.Fset.Position(nx.Pos()).Line == pos.Line {
 			return // more to come on this line
@@ -134,5 +144,18 @@ func (x *Exec) checkBindsAfter(fr *Frame, b *ssa.BasicBlock, st *State, idx int)
 			v.T = x.declareEq("ghost_"+bd.Name, v.T)
 		}
 		x.ghost[bd.Name] = v
+		x.noteReached(bd.Name, st.Guard)
 	}
+}
+
+// noteReached records the path condition under which a bind point was passed (for the
+// spec builtin reached(G)); a point passed more than once is reached if any passage is.
+func (x *Exec) noteReached(name string, g Term) {
+	if x.ghostReached == nil {
+		x.ghostReached = map[string]Term{}
+	}
+	if old, ok := x.ghostReached[name]; ok {
+		g = mkOr(old, g)
+	}
+	x.ghostReached[name] = g
 }
